@@ -1,219 +1,18 @@
 package c07
 
 import (
-	"strings"
 	"testing"
-	"time"
-
-	"github.com/twmb/franz-go/pkg/kgo"
 
 	"verif/checks/c07/gscen"
-	"verif/lib/netctl"
 	"verif/lib/nrun"
 )
 
-// Scenario family G (DESIGN.md §4 C07): group "g" over topic t (3 partitions),
-// members A and B (and C) as separate controlled clients; every
-// OnPartitionsAssigned/Revoked/Lost invocation is stamped at its START and at
-// its END into one log. Only graceful behaviour: no faults; the alphabet is the
-// order of frames across the members' connections, the order of application
-// calls, and ticks (made harmless by 5-minute session/rebalance/request
-// timeouts against ticks of at most one virtual minute).
-
-type variant struct {
-	name     string
-	proto    gscen.Proto
-	addTopic bool // B AddConsumeTopics("t2") once it owns something; B stays
-	addParts bool // ENV grows t to 4 partitions once B owns something, members refresh metadata; B stays
-	third    bool // member C joins once B owns something and stays
-	early    bool // B's leave is enabled as soon as B's client exists (leave may land inside the join rebalance)
-	useClose bool // B leaves with Close instead of LeaveGroup
-}
-
-const (
-	gateLimit = 3 * time.Minute // virtual; a gate that never opens ends the thread's script
-	pollWait  = 430 * time.Millisecond
-)
-
-func scenario(v variant) *netctl.Scenario {
-	return &netctl.Scenario{
-		Name:    v.name,
-		Faults:  nil,
-		Horizon: 6 * time.Minute,
-		Setup: func(x *netctl.Exec) {
-			topics := map[string]int32{"t": 3}
-			if v.addTopic {
-				topics["t2"] = 2
-			}
-			g := gscen.New(x, v.proto, topics)
-			g.RevokeWork = 70 * time.Millisecond
-			x.Data = g
-			stays := v.addTopic || v.addParts
-			owns := func(m string, n int) func() bool { return func() bool { return len(g.Owned(m)) >= n } }
-
-			x.Thread("A", func(t *netctl.Thread) {
-				t.Step("join+poll")
-				a := g.Join("A", true, []string{"t"}, kgo.DisableAutoCommit())
-				g.PollOnce("A", a, 10, pollWait)
-				// "A polls again and sees the revocation": released once B is in the picture.
-				if !g.WaitUntil(gateLimit, func() bool { return g.Client("B") != nil }) {
-					return
-				}
-				t.Step("poll")
-				g.PollOnce("A", a, 10, pollWait)
-				if stays {
-					return
-				}
-				// After B has gone: poll until A owns everything again (bounded).
-				if !g.WaitUntil(gateLimit, func() bool { return !live(g, "B") }) {
-					return
-				}
-				for i := 0; i < 3 && len(g.Owned("A")) < 3; i++ {
-					t.Step("poll")
-					g.PollOnce("A", a, 10, pollWait)
-				}
-			})
-			x.Thread("B", func(t *netctl.Thread) {
-				// The default schedule is the interesting one: B arrives when A
-				// owns the whole topic, so partitions have to move from A to B.
-				if !g.WaitUntil(gateLimit, owns("A", 3)) {
-					return
-				}
-				t.Step("join+poll")
-				time.Sleep(137 * time.Millisecond) // members' periodic timers must not tie (a tie's firing order is the Go runtime's)
-				b := g.Join("B", true, []string{"t"}, kgo.DisableAutoCommit())
-				g.PollOnce("B", b, 10, pollWait)
-				if !v.early && !g.WaitUntil(gateLimit, owns("B", 1)) {
-					return
-				}
-				switch {
-				case v.addTopic:
-					t.Step("add-topic-t2")
-					b.AddConsumeTopics("t2")
-					g.Subscribe("B", "t2")
-				case stays:
-				case v.third:
-					if !g.WaitUntil(gateLimit, owns("C", 1)) {
-						return
-					}
-					fallthrough
-				default:
-					if v.useClose {
-						t.Step("close")
-						b.Close()
-					} else {
-						t.Step("leave")
-						b.LeaveGroup()
-					}
-					g.Gone("B")
-				}
-			})
-			if v.third {
-				x.Thread("C", func(t *netctl.Thread) {
-					if !g.WaitUntil(gateLimit, owns("B", 1)) {
-						return
-					}
-					t.Step("join+poll")
-					time.Sleep(271 * time.Millisecond)
-					c := g.Join("C", true, []string{"t"}, kgo.DisableAutoCommit())
-					g.PollOnce("C", c, 10, pollWait)
-				})
-			}
-			if v.addParts {
-				x.Thread("ENV", func(t *netctl.Thread) {
-					if !g.WaitUntil(gateLimit, owns("B", 1)) {
-						return
-					}
-					t.Step("add-partition")
-					if err := g.AddPartitions("t", 4); err != nil {
-						x.Violate("harness:create-partitions", "%v", err)
-						return
-					}
-					// Default MetadataMaxAge is minutes; the application asks for
-					// a refresh so that the liveness bound of Final is meaningful.
-					t.Step("refresh-A")
-					g.Client("A").ForceMetadataRefresh()
-					t.Step("refresh-B")
-					g.Client("B").ForceMetadataRefresh()
-				})
-			}
-		},
-		Final: func(x *netctl.Exec) {
-			g := x.Data.(*gscen.G)
-			gscen.WaitThreads(x, 8*time.Minute)
-			// Membership and subscriptions are now fixed and the environment is
-			// well behaved: the assignment must settle within 2 virtual minutes.
-			deadline := time.Now().Add(2 * time.Minute)
-			ok, why := g.Converged()
-			for !ok && time.Now().Before(deadline) {
-				time.Sleep(250 * time.Millisecond)
-				ok, why = g.Converged()
-			}
-			if !ok {
-				cbs, _, _ := g.Snapshot()
-				x.Violate("not-converged", "live members %v, 2 virtual minutes after the last membership/subscription change: %s; callback log: %s", g.Live(), why, gscen.FormatCBs(cbs, 1<<62))
-			}
-			cbs, _, _ := g.Snapshot()
-			n := 0
-			gscen.Owners(cbs, func(key, format string, a ...any) {
-				if n == 0 {
-					x.Violate(key, format, a...)
-				}
-				n++
-			})
-			x.Observe("%s", gscen.Outcome(cbs))
-		},
-	}
-}
-
-func live(g *gscen.G, m string) bool {
-	for _, l := range g.Live() {
-		if l == m {
-			return true
-		}
-	}
-	return false
-}
-
-var plans = []nrun.Plan{
-	// The three protocols: k=1 quick, k=2 thorough.
-	{Scenario: scenario(variant{name: "G-eager", proto: gscen.Eager}), QuickBudget: 1, ThoroughBudget: 2, Weight: 3},
-	{Scenario: scenario(variant{name: "G-coop", proto: gscen.Coop, useClose: true}), QuickBudget: 1, ThoroughBudget: 2, Weight: 3},
-	{Scenario: scenario(variant{name: "G-848", proto: gscen.Next}), QuickBudget: 1, ThoroughBudget: 2, Weight: 3},
-	// Variants: default schedule only in the quick tier, k=1 in the thorough tier.
-	{Scenario: scenario(variant{name: "G-eager-topic", proto: gscen.Eager, addTopic: true}), QuickBudget: 0, ThoroughBudget: 1},
-	{Scenario: scenario(variant{name: "G-coop-topic", proto: gscen.Coop, addTopic: true}), QuickBudget: 0, ThoroughBudget: 1},
-	{Scenario: scenario(variant{name: "G-848-topic", proto: gscen.Next, addTopic: true}), QuickBudget: 0, ThoroughBudget: 1},
-	{Scenario: scenario(variant{name: "G-eager-parts", proto: gscen.Eager, addParts: true}), QuickBudget: 0, ThoroughBudget: 1},
-	{Scenario: scenario(variant{name: "G-coop-parts", proto: gscen.Coop, addParts: true}), QuickBudget: 0, ThoroughBudget: 1},
-	{Scenario: scenario(variant{name: "G-848-parts", proto: gscen.Next, addParts: true}), QuickBudget: 0, ThoroughBudget: 1},
-	{Scenario: scenario(variant{name: "G-eager-early", proto: gscen.Eager, early: true, useClose: true}), QuickBudget: 0, ThoroughBudget: 1},
-	{Scenario: scenario(variant{name: "G-coop-early", proto: gscen.Coop, early: true}), QuickBudget: 0, ThoroughBudget: 1},
-	{Scenario: scenario(variant{name: "G-848-early", proto: gscen.Next, early: true, useClose: true}), QuickBudget: 0, ThoroughBudget: 1},
-	{Scenario: scenario(variant{name: "G-eager-3", proto: gscen.Eager, third: true}), QuickBudget: 0, ThoroughBudget: 1},
-	{Scenario: scenario(variant{name: "G-coop-3", proto: gscen.Coop, third: true, useClose: true}), QuickBudget: 0, ThoroughBudget: 1},
-	{Scenario: scenario(variant{name: "G-848-3", proto: gscen.Next, third: true}), QuickBudget: 0, ThoroughBudget: 1},
-}
-
+// The scenarios live in the importable package verif/checks/c07/gscen
+// (gscen.PlansC07); this file is only the entry point.
 func TestC07(t *testing.T) {
-	if gscen.ServeWorker(t, plans) {
+	c := gscen.CheckC07()
+	if gscen.ServeWorker(t, c.Plans) { // worker half of nrun.Main with a higher divergence-retry bound
 		return
 	}
-	nrun.Main(t, &nrun.Check{
-		ID: "C07", TestName: "TestC07", Plans: plans,
-		QuickTime: 80 * time.Second, ThorTime: 18 * time.Minute,
-		Rule: strings.Join([]string{
-			"engine N, scenario family G: members A, B (C) of group g over topic t (3 partitions) as separate real kgo clients against kfake, one scenario per protocol (eager/range, cooperative-sticky, KIP-848)",
-			"script: A joins and owns t; B joins; A polls; B leaves (LeaveGroup or Close); A polls until it owns t again; variants: B AddConsumeTopics(t2), a partition added to t, B leaving inside the join rebalance, a third member",
-			"explored: every order of request/response frame deliveries across the members' connections, application calls and timer ticks within k deviations of the default order (no faults: graceful behaviour only)",
-			"distinct = distinct callback sequences (member, callback kind, number of partitions) per scenario",
-		}, "; "),
-		Assume: []string{
-			"kfake is the group coordinator",
-			"synctests build of xsync",
-			"ticks are harmless: session, rebalance and request timeouts are 5 virtual minutes, a tick lasts at most one",
-			"a revoke/lost callback takes 70 virtual ms between its START and END stamps",
-			"goroutine micro-interleavings inside one event are the Go runtime's",
-		},
-	})
+	nrun.Main(t, c)
 }
